@@ -159,6 +159,20 @@ Theorem C04_read_rendered : forall hi b keys styles he fe erows scols ecols e,
 Proof. exact read_rendered. Qed.
 Print Assumptions C04_read_rendered.
 
+(* the item a Dialogue event denotes *)
+Theorem C04_item : forall ev m ls seps, ls <> [] -> Forall line_ok ls ->
+  av_text ev = join_seps seps (map line_string ls) ->
+  event_item ev m =
+  mkAitem (av_start ev) (av_end ev)
+          (match av_style ev with
+           | [] => None
+           | n => if sm_mem n m then Some n else if sm_mem (trim_prefix star n) m then Some (trim_prefix star n) else None
+           end)
+          (Some (mkAevattr (av_effect ev) (av_layer ev) (av_ml ev) (av_mr ev) (av_mv ev) (av_marked ev)))
+          (map (fun l => mkAline (av_name ev) (al_runs l)) ls).
+Proof. exact event_item_denotes. Qed.
+Print Assumptions C04_item.
+
 (* ---- what the reader ignores ---- *)
 Theorem C04_ignores_unintelligible_lines : forall l1 j l2 e, l1 <> [] -> junk j ->
   read_ssa_lines (l1 ++ j :: l2) e = read_ssa_lines (l1 ++ l2) e.
